@@ -3,11 +3,13 @@ package main
 import (
 	"encoding/json"
 	"fmt"
+	"math/rand"
 	"os"
 
 	"golang.org/x/image/font/sfnt"
 	"golang.org/x/text/encoding/charmap"
 	"seehuhn.de/go/sfnt/mac"
+	"seehuhn.de/go/sfnt/name"
 	"verif.local/harness/internal/namex"
 	"verif.local/harness/internal/vio"
 )
@@ -125,9 +127,137 @@ func be(units []int) []int {
 	return res
 }
 
+// runCodecHist: a history of codec calls (NameCodec.tla, part "codech").  Every result is kept
+// as the API handed it out (the byte slice, the string, the *name.Info) and looked at twice:
+// right after the call ("first") and after all later calls of the history ("final").
+//
+//	ME mac.Encode(string of a runes)      MD mac.Decode(a bytes)
+//	NE name.Info.Encode of one Macintosh and one Windows string of a runes each
+//	ND name.Decode of a table the harness wrote (two records of a characters); the table bytes
+//	   are overwritten afterwards: a decoded Info must not live in its input
+func runCodecHist(out *vio.Out, c Case) {
+	loadMacHigh()
+	discoverLangs()
+	rng := rand.New(rand.NewSource(c.RSeed))
+	mlang, wlang := 0, 0x409
+	mtag, wtag := "en", "en-US"
+	if len(macLangs) > 0 {
+		mlang, mtag = macLangs[0].ID, macLangs[0].Tag
+	}
+	for _, l := range winLangs {
+		if l.ID == 0x409 {
+			wtag = l.Tag
+		}
+	}
+	type kept struct {
+		op           string
+		arg, arg2    []int
+		first, first2 []int
+		bytes        []byte
+		str          string
+		info         *name.Info
+	}
+	var all []*kept
+	bad := false
+	for _, o := range c.Ops {
+		k := &kept{op: o.Op, arg: []int{}, arg2: []int{}, first: []int{}, first2: []int{}}
+		func() {
+			defer func() {
+				if recover() != nil {
+					bad = true
+				}
+			}()
+			macStr := func() []int {
+				cps := make([]int, o.A)
+				for i := range cps {
+					cps[i] = randCP(rng, "mac")
+				}
+				return cps
+			}
+			switch o.Op {
+			case "ME":
+				k.arg = macStr()
+				k.bytes = mac.Encode(str(k.arg))
+				k.first = ints(k.bytes)
+			case "MD":
+				for i := 0; i < o.A; i++ {
+					k.arg = append(k.arg, rng.Intn(256))
+				}
+				k.str = mac.Decode(bytesOf(k.arg))
+				k.first = runes(k.str)
+			case "NE":
+				k.arg = macStr()
+				for i := 0; i < o.A; i++ {
+					k.arg2 = append(k.arg2, randCP(rng, "bmp"))
+				}
+				info := buildInfo([]Entry{{P: 1, T: mtag, N: 1, S: k.arg}, {P: 3, T: wtag, N: 1, S: k.arg2}})
+				k.bytes = info.Encode(1)
+				k.first = ints(k.bytes)
+			case "ND":
+				var units []int
+				for i := 0; i < o.A; i++ {
+					k.arg = append(k.arg, rng.Intn(256))
+					units = append(units, randCP(rng, "bmp"))
+				}
+				k.arg2 = be(units)
+				tbl := namex.BuildName([]namex.RawRec{
+					{Platform: 1, Encoding: 0, Language: mlang, NameID: 1, Payload: bytesOf(k.arg)},
+					{Platform: 3, Encoding: 1, Language: wlang, NameID: 1, Payload: bytesOf(k.arg2)}}, 0)
+				info, err := name.Decode(tbl)
+				if err != nil {
+					bad = true
+					return
+				}
+				k.info = info
+				for i := range tbl {
+					tbl[i] = 0x55
+				}
+				k.first, k.first2 = famOf(info, mtag, wtag)
+			default:
+				vio.Fatal("unknown codec history op " + o.Op)
+			}
+		}()
+		all = append(all, k)
+	}
+	calls := []ev{}
+	for _, k := range all {
+		final, final2 := []int{}, []int{}
+		switch k.op {
+		case "ME", "NE":
+			final = ints(k.bytes)
+		case "MD":
+			final = runes(k.str)
+		case "ND":
+			if k.info != nil {
+				final, final2 = famOf(k.info, mtag, wtag)
+			}
+		}
+		calls = append(calls, ev{"op": k.op, "arg": k.arg, "arg2": k.arg2, "first": k.first, "first2": k.first2,
+			"final": final, "final2": final2})
+	}
+	out.Emit(ev{"ev": "codechist", "case": c.ID, "failed": bad, "calls": calls})
+}
+
+// famOf returns name id 1 of the Macintosh and the Windows table of a decoded Info.
+func famOf(info *name.Info, mtag, wtag string) (m, w []int) {
+	m, w = []int{}, []int{}
+	if t := info.Mac[mtag]; t != nil {
+		m = runes(t.Family)
+	}
+	if t := info.Windows[wtag]; t != nil {
+		w = runes(t.Family)
+	}
+	return
+}
+
 func genCodec(s *sink, tlcCases string) {
 	loadMacHigh()
 	s.add(Case{Kind: "macall"}, "")
+	for i, a := range vio.ReadLines[AbsCase](tlcCases) {
+		if a.Part == "codechist" {
+			s.add(Case{Kind: "codechist", Ops: a.Ops, RSeed: vio.Seed()*7919 + int64(i)}, "")
+		}
+	}
 	// UTF-16 unit sequences enumerated by TLC (surrogate boundaries), as Windows records
 	for _, a := range vio.ReadLines[AbsCase](tlcCases) {
 		if a.Part != "units" {
